@@ -11,6 +11,14 @@
      {"op":"storage","sysblock":[hex],"names":[hex]}  → {"model":[bool]}
      {"op":"usage","st":[bsize,frsize,blocks,bfree,bavail,files,ffree,favail,flag,namemax]}
          → {"model":usage,"spec":usage}
+     {"op":"sysfs","disks":[{"major":n,"minor":n,"name":hex,"s":[11],"ext":[…],"others":[[hex,hex]],"attrs":[tree],
+                             "parts":[{"minor":n,"name":hex,"s":[11],"ext":[…],"others":[[hex,hex]],"attrs":[tree]}]}],
+      "procfs":b,"perdisk":b}
+         → {"tree":[tree],"file":hex|null,"model":out,"spec":out}   tree = Spec.renderSysfs, file = Spec.renderDiskstats
+           (present iff "procfs"); spec = expectSysfs (no /proc/diskstats) resp. expectDisk (with it)
+     {"op":"sysfsraw","tree":[tree]|null,"diskstats":hex|null,"perdisk":b} → {"model":out,"spec":out|null}
+         tree = {"name":hex,"files":[[hex,hex]],"subs":[tree]}; spec only for the world with neither source
+     {"op":"int","toks":[hex]} → {"model":[int | "ValueError" | "unmodelled"]}     int() of one token
 -/
 import PsutilModel.Base.Proto
 import PsutilModel.Model.C09Gen
@@ -23,6 +31,8 @@ def excName : Exc → String
   | .indexError => "IndexError"
   | .nameError => "UnboundLocalError"
   | .typeError => "TypeError"
+  | .notImplementedError => "NotImplementedError"
+  | .unmodelled => "unmodelled"
 
 def jNT (t : List (String × Nat)) : Json := jList (fun kv => Json.arr #[Json.str kv.1, jNat kv.2]) t
 
@@ -34,6 +44,7 @@ def jOut : Out → Json
   | .emptyDict => jObj [("kind", "empty")]
   | .perdev d => jObj [("kind", "perdev"), ("devs", jPerdev d)]
   | .total t => jObj [("kind", "total"), ("fields", jNT t)]
+  | .exc .unmodelled => jObj [("kind", "unmodelled")]
   | .exc e => jObj [("kind", "exc"), ("exc", Json.str (excName e))]
 
 def jExpect : Spec.Expect → Json
@@ -84,6 +95,49 @@ def parseDev (j : Json) : R Spec.Dev := do
   let part ← boolF j "part"
   let r ← field j "rec" >>= parseRec
   pure { major := major, minor := minor, name := name, partition := part, stat := r }
+
+def parsePair (j : Json) : R (Bytes × Bytes) := do
+  match (← asList asBytes j) with
+  | [a, b] => pure (a, b)
+  | _ => .error "file needs [name, content]"
+
+partial def parseTree (j : Json) : R SysDir := do
+  let name ← bytesF j "name"
+  let files ← listF parsePair j "files"
+  let subs ← listF parseTree j "subs"
+  pure (.node name files subs)
+
+partial def jTree : SysDir → Json
+  | .node n fs subs =>
+    jObj [("name", jBytes n), ("files", jList (fun f => Json.arr #[jBytes f.1, jBytes f.2]) fs),
+          ("subs", jList jTree subs)]
+
+def parseSysPart (j : Json) : R Spec.SysPart := do
+  let minor ← natF j "minor"
+  let name ← bytesF j "name"
+  let s ← listF asNat j "s" >>= parseIo11
+  let ext ← listF asNat j "ext"
+  let others ← listF parsePair j "others"
+  let attrs ← listF parseTree j "attrs"
+  pure { minor := minor, name := name, s := s, ext := ext, others := others, attrs := attrs }
+
+def parseSysDisk (j : Json) : R Spec.SysDisk := do
+  let major ← natF j "major"
+  let minor ← natF j "minor"
+  let name ← bytesF j "name"
+  let s ← listF asNat j "s" >>= parseIo11
+  let ext ← listF asNat j "ext"
+  let others ← listF parsePair j "others"
+  let attrs ← listF parseTree j "attrs"
+  let parts ← listF parseSysPart j "parts"
+  pure { major := major, minor := minor, name := name, s := s, ext := ext, others := others, attrs := attrs,
+         parts := parts }
+
+def jIntTok (t : Bytes) : Json :=
+  if hasNonAscii t then Json.str "unmodelled"
+  else match pyInt? t with
+    | none => Json.str "ValueError"
+    | some v => jInt v
 
 def stNames : List String :=
   ["st.f_bsize", "st.f_frsize", "st.f_blocks", "st.f_bfree", "st.f_bavail", "st.f_files",
@@ -136,6 +190,27 @@ def handle (_ : Unit) (j : Json) : R (Unit × Json) := do
         | none => jObj [("kind", "exc"), ("exc", "UnboundLocalError")]
       return ((), jObj [("model", m), ("spec", jUsage sp.total sp.used sp.free sp.percent 1)])
     | _ => .error "st needs 10 values"
+  else if op == "sysfs" then
+    let disks ← listF parseSysDisk j "disks"
+    let procfs ← boolF j "procfs"
+    let per ← boolF j "perdisk"
+    let tree := Spec.renderSysfs disks
+    let devs := Spec.sysDevs disks
+    let file := if procfs then some (Spec.renderDiskstats devs) else none
+    let sp := if procfs then Spec.expectDisk per devs else Spec.expectSysfs per disks
+    return ((), jObj [("tree", jList jTree tree), ("file", jOpt jBytes file),
+                      ("model", jOut (diskIoCountersW ⟨file, some tree⟩ per)), ("spec", jExpect sp)])
+  else if op == "sysfsraw" then
+    let tree ← optF (asList parseTree) j "tree"
+    let file ← optF asBytes j "diskstats"
+    let per ← boolF j "perdisk"
+    let sp := match tree, file with
+      | none, none => jOut (.exc .notImplementedError)
+      | _, _ => Json.null
+    return ((), jObj [("model", jOut (diskIoCountersW ⟨file, tree⟩ per)), ("spec", sp)])
+  else if op == "int" then
+    let toks ← listF asBytes j "toks"
+    return ((), jObj [("model", jList jIntTok toks)])
   else if op == "storage" then
     let sb ← listF asBytes j "sysblock"
     let names ← listF asBytes j "names"
